@@ -164,6 +164,8 @@ def run_case(plan, prop, want_log=False):
     out = {"seed": plan.get("seed"), "run": plan.get("run"), "profile": plan.get("profile")}
     try:
         ctx = X.Ctx(plan, root)
+        if prop in ("C13", "ALL") and plan.get("run", 0) % 3 == 1:
+            OR.run_prelude_evaluator(ctx)
         lane = X.Lane(ctx, "main", monitors=monitors_for(prop))
         lane.run()
         relational_for(prop, ctx, lane)
